@@ -16,12 +16,17 @@
 package main
 
 import (
+	"bytes"
 	"context"
+	"encoding/json"
 	"errors"
 	"fmt"
 	"io"
 	"net/http"
 	"net/http/httptest"
+	"os"
+	"os/exec"
+	"path/filepath"
 	"regexp"
 	"runtime"
 	"sort"
@@ -69,6 +74,12 @@ type spec struct {
 	noop     bool // http only, single backend: no-op encoding (body handed through, closed on cancellation)
 	backends [][]beh
 	group    string
+	// how the case is run (not part of the input the model sees)
+	stress time.Duration // > 0: hammer one instance with this request for that long first (child process)
+	seqID  int           // > 0: step of an instance-reuse sequence (one instance, consecutive requests)
+	step   int
+	concID int // > 0: request of a concurrent instance-reuse group (one instance, many goroutines)
+	concG  int // the goroutine that sends it
 }
 
 func (s spec) canon() string {
@@ -79,6 +90,16 @@ func (s spec) canon() string {
 			b.WriteByte(byte('0' + x))
 		}
 		b.WriteByte('/')
+	}
+	// the same request after a different history / among concurrent ones is another test
+	if s.seqID > 0 {
+		fmt.Fprintf(&b, "|seq%d.%d", s.seqID, s.step)
+	}
+	if s.concID > 0 {
+		fmt.Fprintf(&b, "|conc%d", s.concID)
+	}
+	if s.stress > 0 {
+		b.WriteString("|stress")
 	}
 	return b.String()
 }
@@ -107,11 +128,48 @@ func (s spec) js() map[string]interface{} {
 			bl[i] = append(bl[i], behNames[x])
 		}
 	}
-	return map[string]interface{}{"level": s.level, "sequential": s.seq, "timeout_ns": int64(s.T), "parent_deadline_ns": int64(s.parent),
+	m := map[string]interface{}{"level": s.level, "sequential": s.seq, "timeout_ns": int64(s.T), "parent_deadline_ns": int64(s.parent),
 		"http_executor_stubs": s.http, "no_op": s.noop, "backends": bl, "group": s.group}
+	if s.stress > 0 {
+		m["stressed_first_ms"] = int64(s.stress / time.Millisecond)
+	}
+	if s.seqID > 0 {
+		m["reuse_sequence"] = s.seqID
+		m["reuse_step"] = s.step
+	}
+	if s.concID > 0 {
+		m["reuse_concurrent_group"] = s.concID
+		m["reuse_goroutine"] = s.concG
+	}
+	return m
 }
 
 func (s spec) multi() bool { return len(s.backends) > 1 }
+
+// sequential merge + concurrent_calls > 1 over real http proxies: the shape whose defect (fixed:
+// f5f9a56, the last attempt shared the caller's *Request) kills the process with a panic in a
+// goroutine lura started, which nothing here can recover.  These cases run in a child process
+// and the death of the child is the observation.
+func (s spec) dangerous() bool {
+	if !(s.http && s.seq && s.multi()) {
+		return false
+	}
+	for _, a := range s.backends {
+		if len(a) > 1 {
+			return true
+		}
+	}
+	return false
+}
+
+// what one pipeline instance is built from; steps of a reuse sequence must agree on it
+func (s spec) shapeKey() string {
+	k := fmt.Sprintf("%s|%v|%d|%v|%v", s.level, s.seq, s.T, s.http, s.noop)
+	for _, a := range s.backends {
+		k += fmt.Sprintf("|%d", len(a))
+	}
+	return k
+}
 
 // earliest deadline any call of this request can have, relative to the arrival
 func (s spec) minDeadline() time.Duration {
@@ -166,7 +224,8 @@ type recorder struct {
 	released  atomic.Bool
 	immMax    atomic.Int64 // latest moment an "at once" behaviour that the model relies on finished
 	bodies    []*body
-	firstSlow int // index of the first backend without an Answer attempt (sequential: later ones are not called "at once")
+	firstSlow int  // index of the first backend without an Answer attempt (sequential: later ones are not called "at once")
+	quiet     bool // stress loop: behave, record nothing
 }
 
 func newRecorder(s spec) *recorder {
@@ -190,6 +249,9 @@ func newRecorder(s spec) *recorder {
 
 // enter records the invocation and returns the behaviour of this attempt
 func (r *recorder) enter(ctx context.Context, be int) beh {
+	if r.quiet {
+		return r.s.backends[be][0]
+	}
 	inv := time.Since(r.t0)
 	c := &callRec{be: be, inv: inv, ctx: ctx}
 	if d, ok := ctx.Deadline(); ok {
@@ -210,6 +272,9 @@ func (r *recorder) enter(ctx context.Context, be int) beh {
 }
 
 func (r *recorder) immediateDone(be int) {
+	if r.quiet {
+		return
+	}
 	if r.s.multi() && r.s.seq && be > r.firstSlow {
 		return
 	}
@@ -283,11 +348,42 @@ func beIndex(b *config.Backend) int {
 	return i
 }
 
-func (r *recorder) backendFactory() proxy.BackendFactory {
+// ---- one pipeline instance ---------------------------------------------------------------
+// The stubs find the recorder of the request they serve through a request header that the
+// routers are configured to pass (input_headers), so that one instance can serve many requests.
+
+const caseHeader = "X-C04-Case"
+
+var caseSeq atomic.Int64
+
+type instance struct {
+	shape   string
+	ep      *config.EndpointConfig
+	p       proxy.Proxy
+	handler http.Handler
+	recs    sync.Map // case id -> *recorder
+	orphans atomic.Int64
+}
+
+func (in *instance) lookup(ids []string) *recorder {
+	if len(ids) > 0 {
+		if v, ok := in.recs.Load(ids[0]); ok {
+			return v.(*recorder)
+		}
+	}
+	in.orphans.Add(1)
+	return nil
+}
+
+func (in *instance) backendFactory(httpStubs bool) proxy.BackendFactory {
 	return func(b *config.Backend) proxy.Proxy {
 		be := beIndex(b)
-		if r.s.http {
-			exec := func(ctx context.Context, _ *http.Request) (*http.Response, error) {
+		if httpStubs {
+			exec := func(ctx context.Context, hr *http.Request) (*http.Response, error) {
+				r := in.lookup(hr.Header[caseHeader])
+				if r == nil {
+					return nil, errBackend
+				}
 				kind, err := r.play(ctx, be, r.enter(ctx, be))
 				if kind != 0 {
 					if err == nil {
@@ -296,14 +392,20 @@ func (r *recorder) backendFactory() proxy.BackendFactory {
 					return nil, err
 				}
 				bd := &body{r: strings.NewReader(fmt.Sprintf(`{"k%d":%d}`, be, be))}
-				r.mu.Lock()
-				r.bodies = append(r.bodies, bd)
-				r.mu.Unlock()
+				if !r.quiet {
+					r.mu.Lock()
+					r.bodies = append(r.bodies, bd)
+					r.mu.Unlock()
+				}
 				return &http.Response{StatusCode: 200, Header: http.Header{"Content-Type": []string{"application/json"}}, Body: bd}, nil
 			}
 			return proxy.NewHTTPProxyWithHTTPExecutor(b, exec, b.Decoder)
 		}
-		return func(ctx context.Context, _ *proxy.Request) (*proxy.Response, error) {
+		return func(ctx context.Context, req *proxy.Request) (*proxy.Response, error) {
+			r := in.lookup(req.Headers[caseHeader])
+			if r == nil {
+				return nil, errBackend
+			}
 			kind, err := r.play(ctx, be, r.enter(ctx, be))
 			switch kind {
 			case 0, 1:
@@ -363,9 +465,10 @@ func keysOfText(s string) []int {
 	return ks
 }
 
-func build(s spec, rec *recorder) (*config.EndpointConfig, proxy.Proxy) {
+func newInstance(s spec) *instance {
+	in := &instance{shape: s.shapeKey()}
 	sc := config.ServiceConfig{Version: config.ConfigVersion, Timeout: s.T, Host: []string{"http://127.0.0.1:8081"}}
-	ep := &config.EndpointConfig{Endpoint: "/x", Method: "GET", Timeout: s.T}
+	ep := &config.EndpointConfig{Endpoint: "/x", Method: "GET", Timeout: s.T, HeadersToPass: []string{caseHeader}}
 	if s.noop {
 		ep.OutputEncoding = encoding.NOOP
 	}
@@ -388,29 +491,52 @@ func build(s spec, rec *recorder) (*config.EndpointConfig, proxy.Proxy) {
 	for i, a := range s.backends {
 		ep.Backend[i].ConcurrentCalls = len(a)
 	}
-	p, err := proxy.NewDefaultFactory(rec.backendFactory(), logging.NoOp).New(ep)
+	p, err := proxy.NewDefaultFactory(in.backendFactory(s.http), logging.NoOp).New(ep)
 	if err != nil {
 		panic(err)
 	}
-	return ep, p
+	in.ep, in.p = ep, p
+	switch s.level {
+	case "LGin":
+		e := gin.New()
+		e.GET("/x", krakendgin.EndpointHandler(ep, p))
+		in.handler = e
+	case "LMux":
+		in.handler = mux.EndpointHandler(ep, p)
+	}
+	return in
 }
 
 const watchdogAfter = 1500 * time.Millisecond // after the endpoint timeout
 const giveUpAfter = 3 * time.Second           // after the watchdog
 
-func runCase(s spec) *result {
+func runCase(s spec) *result { return runOn(newInstance(s), s) }
+
+// hammer one instance with the request for the given time (no recording), see spec.dangerous
+func runStress(s spec) {
+	in := newInstance(s)
+	rec := newRecorder(s)
+	rec.quiet = true
+	in.recs.Store("stress", rec)
+	end := time.Now().Add(s.stress)
+	for time.Now().Before(end) {
+		for k := 0; k < 200; k++ {
+			in.p(context.Background(), &proxy.Request{Method: "GET", Path: "/x", Params: map[string]string{},
+				Headers: map[string][]string{caseHeader: {"stress"}}, Query: map[string][]string{}})
+		}
+	}
+}
+
+// runOn sends one request through the instance
+func runOn(in *instance, s spec) *result {
+	if in.shape != s.shapeKey() {
+		panic("request does not fit the instance: " + in.shape + " vs " + s.shapeKey())
+	}
 	rec := newRecorder(s)
 	res := &result{s: s, rec: rec}
-	ep, p := build(s, rec)
-	var handler http.Handler
-	switch s.level {
-	case "LGin":
-		e := gin.New()
-		e.GET("/x", krakendgin.EndpointHandler(ep, p))
-		handler = e
-	case "LMux":
-		handler = mux.EndpointHandler(ep, p)
-	}
+	id := strconv.FormatInt(caseSeq.Add(1), 10)
+	in.recs.Store(id, rec)
+	p, handler := in.p, in.handler
 	base, cancelBase := context.WithCancel(context.Background())
 	defer cancelBase()
 	finished := make(chan struct{})
@@ -450,7 +576,7 @@ func runCase(s spec) *result {
 			}
 		}()
 		if handler == nil {
-			resp, _ := p(pctx, &proxy.Request{Method: "GET", Path: "/x", Params: map[string]string{}, Headers: map[string][]string{}, Query: map[string][]string{}})
+			resp, _ := p(pctx, &proxy.Request{Method: "GET", Path: "/x", Params: map[string]string{}, Headers: map[string][]string{caseHeader: {id}}, Query: map[string][]string{}})
 			ret = time.Since(rec.t0)
 			rec.markReturned()
 			if resp != nil {
@@ -463,6 +589,7 @@ func runCase(s spec) *result {
 		} else {
 			w := httptest.NewRecorder()
 			req := httptest.NewRequest("GET", "/x", nil).WithContext(pctx)
+			req.Header.Set(caseHeader, id)
 			handler.ServeHTTP(w, req)
 			ret = time.Since(rec.t0)
 			rec.markReturned()
@@ -634,6 +761,8 @@ type runner struct {
 	attributed     int
 	unattributed   int
 	rerunBudget    time.Duration
+	orphans        int64
+	pendingLeak    bool // goroutines were left behind while several reused instances were at work
 }
 
 // an observation that a stalled process could also produce: run the case again (a real
@@ -656,15 +785,41 @@ func suspicious(r *result) bool {
 	return len(r.rec.calls) > 0 && r.ret > maxDl+slack/2
 }
 
+// a request to run: through a fresh instance (in == nil) or through a given one
+type job struct {
+	in *instance
+	s  spec
+}
+
 func (rn *runner) runBatch(specs []spec) []*result {
-	res := make([]*result, len(specs))
+	jobs := make([]job, len(specs))
+	for i, s := range specs {
+		jobs[i] = job{s: s}
+	}
+	return rn.runJobs(jobs)
+}
+
+func (rn *runner) runJobs(jobs []job) []*result {
+	res := make([]*result, len(jobs))
+	specs := make([]spec, len(jobs))
+	fresh := true
+	for i, j := range jobs {
+		specs[i] = j.s
+		if j.in != nil {
+			fresh = false
+		}
+	}
 	var wg sync.WaitGroup
 	hbMax.Store(0)
-	for i := range specs {
+	for i := range jobs {
 		wg.Add(1)
 		go func(i int) {
 			defer wg.Done()
-			res[i] = runCase(specs[i])
+			if jobs[i].in != nil {
+				res[i] = runOn(jobs[i].in, jobs[i].s)
+			} else {
+				res[i] = runCase(jobs[i].s)
+			}
 		}(i)
 	}
 	wg.Wait()
@@ -692,10 +847,10 @@ func (rn *runner) runBatch(specs []spec) []*result {
 		for _, id := range left {
 			rn.ignore[id] = true
 		}
-		// attribute: one case at a time
+		// attribute: one case at a time (fresh instances only: a reused instance has a history)
 		before := rn.attributed
 		for i := range specs {
-			if rn.serialLeft <= 0 {
+			if rn.serialLeft <= 0 || !fresh {
 				break
 			}
 			rn.serialLeft--
@@ -710,7 +865,16 @@ func (rn *runner) runBatch(specs []spec) []*result {
 			}
 			res[i] = r
 		}
-		if rn.attributed == before {
+		if !fresh {
+			// reused instances: exact when the request ran alone, otherwise the caller runs the
+			// sequences again one at a time
+			if len(jobs) == 1 {
+				res[0].leaked += len(left)
+				rn.attributed++
+			} else {
+				rn.pendingLeak = true
+			}
+		} else if rn.attributed == before {
 			rn.unattributed++
 			if rn.attributed == 0 {
 				// seen only with the batch running concurrently (or the budget for running cases
@@ -769,12 +933,302 @@ func (rn *runner) runAll(specs []spec, batch int) []*result {
 	return all
 }
 
+// ---- instance reuse ---------------------------------------------------------------------
+
+// runSequences drives each sequence (specs sharing seqID, in step order) through ONE instance,
+// one request after the other; the k-th requests of all sequences run side by side, and the
+// harness waits for lura's goroutines to be gone before the next round, so that every
+// request meets an instance that is idle but used.
+func (rn *runner) runSequences(specs []spec, idxs []int) map[int]*result {
+	out := map[int]*result{}
+	bySeq := map[int][]int{}
+	var order []int
+	for _, i := range idxs {
+		id := specs[i].seqID
+		if _, ok := bySeq[id]; !ok {
+			order = append(order, id)
+		}
+		bySeq[id] = append(bySeq[id], i)
+	}
+	run := func(ids []int) {
+		insts := map[int]*instance{}
+		for _, id := range ids {
+			insts[id] = newInstance(specs[bySeq[id][0]])
+		}
+		for round := 0; ; round++ {
+			var jobs []job
+			var at []int
+			for _, id := range ids {
+				if round < len(bySeq[id]) {
+					i := bySeq[id][round]
+					jobs = append(jobs, job{in: insts[id], s: specs[i]})
+					at = append(at, i)
+				}
+			}
+			if len(jobs) == 0 {
+				break
+			}
+			rs := rn.runJobs(jobs)
+			for k, i := range at {
+				out[i] = rs[k]
+			}
+		}
+		for _, id := range ids {
+			rn.orphans += insts[id].orphans.Load()
+		}
+	}
+	rn.pendingLeak = false
+	run(order)
+	start := time.Now()
+	if rn.pendingLeak {
+		// goroutines stayed behind: every sequence again, alone, so that what stays behind is
+		// pinned on the request that left it
+		for _, id := range order {
+			if time.Since(start) > 2*rn.rerunBudget {
+				break
+			}
+			run([]int{id})
+		}
+	}
+	// a sequence with a step the machine was too slow for: the whole sequence again, alone
+	start = time.Now()
+	for attempt := 0; attempt < 2; attempt++ {
+		for _, id := range order {
+			bad := false
+			for _, i := range bySeq[id] {
+				if suspicious(out[i]) && out[i].leaked == 0 {
+					bad = true
+				}
+			}
+			if bad && time.Since(start) < rn.rerunBudget/2 {
+				rn.retries += len(bySeq[id])
+				run([]int{id})
+			}
+		}
+	}
+	return out
+}
+
+// runConcurrent: ONE instance, the requests of the group sent by their goroutines (each in its
+// order) after a common start gate
+func (rn *runner) runConcurrent(specs []spec, idxs []int) map[int]*result {
+	out := map[int]*result{}
+	for attempt := 0; attempt < 3; attempt++ {
+		in := newInstance(specs[idxs[0]])
+		byG := map[int][]int{}
+		for _, i := range idxs {
+			byG[specs[i].concG] = append(byG[specs[i].concG], i)
+		}
+		res := make(map[int]*result, len(idxs))
+		var mu sync.Mutex
+		gate := make(chan struct{})
+		var wg sync.WaitGroup
+		hbMax.Store(0)
+		for _, list := range byG {
+			wg.Add(1)
+			go func(list []int) {
+				defer wg.Done()
+				<-gate
+				for _, i := range list {
+					r := runOn(in, specs[i])
+					mu.Lock()
+					res[i] = r
+					mu.Unlock()
+				}
+			}(list)
+		}
+		close(gate)
+		wg.Wait()
+		for t := hbTicks.Load(); hbTicks.Load() < t+2; {
+			time.Sleep(200 * time.Microsecond)
+		}
+		stalled := hbMax.Load() > int64(stallLimit)
+		left := quiesce(rn.ignore, 5*time.Second)
+		for _, id := range left {
+			rn.ignore[id] = true
+		}
+		rn.orphans += in.orphans.Load()
+		for k, i := range idxs {
+			r := res[i]
+			r.leaked = unclosedBodies(r.rec)
+			if stalled {
+				r.tainted = true
+			}
+			if k == 0 && len(left) > 0 {
+				r.leaked += len(left)
+				r.batchLevel = true
+				rn.batchLeaks++
+			}
+			out[i] = r
+		}
+		if !stalled {
+			break
+		}
+		rn.stalledBatches++
+		rn.retries += len(idxs)
+	}
+	return out
+}
+
+// ---- cases run in a child process -------------------------------------------------------
+
+type childLine struct {
+	Start []int    `json:"start,omitempty"`
+	Idx   *int     `json:"idx,omitempty"`
+	Obs   *obsData `json:"obs,omitempty"`
+}
+
+// childMain: run the dangerous specs with index >= from, a few at a time, and report through
+// <out>/child.jsonl; every batch is announced before it starts
+func childMain(cfg out.Config, specs []spec, from int, rn *runner) {
+	f, err := os.Create(filepath.Join(cfg.Dir, "child.jsonl"))
+	if err != nil {
+		panic(err)
+	}
+	put := func(l childLine) {
+		b, _ := json.Marshal(l)
+		f.Write(append(b, '\n'))
+		f.Sync()
+	}
+	var idxs []int
+	for i, s := range specs {
+		if s.dangerous() && i >= from && (cfg.Only < 0 || cfg.Only == i) {
+			idxs = append(idxs, i)
+		}
+	}
+	batch := 4
+	if cfg.Thorough() {
+		batch = 12
+	}
+	for lo := 0; lo < len(idxs); {
+		hi := lo + batch
+		if hi > len(idxs) {
+			hi = len(idxs)
+		}
+		if specs[idxs[lo]].stress > 0 {
+			hi = lo + 1
+		}
+		for k := lo + 1; k < hi; k++ {
+			if specs[idxs[k]].stress > 0 {
+				hi = k
+			}
+		}
+		put(childLine{Start: idxs[lo:hi]})
+		var sub []spec
+		for _, i := range idxs[lo:hi] {
+			if specs[i].stress > 0 {
+				runStress(specs[i])
+			}
+			sub = append(sub, specs[i])
+		}
+		rs := rn.runAll(sub, len(sub))
+		for k, i := range idxs[lo:hi] {
+			i := i
+			o := rs[k].data()
+			put(childLine{Idx: &i, Obs: &o})
+		}
+		lo = hi
+	}
+	f.Close()
+}
+
+// runInChildren runs the given (dangerous) cases in child processes of this very program; a
+// child that dies takes the cases that were in flight with it: their observation is "the
+// pipeline did not return" together with the last words of the process
+func runInChildren(cfg out.Config, idxs []int) (map[int]obsData, int) {
+	res := map[int]obsData{}
+	want := map[int]bool{}
+	for _, i := range idxs {
+		want[i] = true
+	}
+	deaths := 0
+	from := 0
+	for attempt := 0; attempt < 8 && len(res) < len(idxs); attempt++ {
+		dir := filepath.Join(cfg.Dir, fmt.Sprintf("child%d", attempt))
+		os.MkdirAll(dir, 0o755)
+		args := []string{"--tier", cfg.Tier, "--seed", strconv.FormatUint(cfg.Seed, 10), "--out", dir, "--extra", "child:" + strconv.Itoa(from)}
+		if cfg.Only >= 0 {
+			args = append(args, "--only", strconv.Itoa(cfg.Only))
+		}
+		cmd := exec.Command(os.Args[0], args...)
+		var stderr bytes.Buffer
+		cmd.Stderr = &stderr
+		err := cmd.Run()
+		inflight := map[int]bool{}
+		if b, e := os.ReadFile(filepath.Join(dir, "child.jsonl")); e == nil {
+			for _, line := range strings.Split(string(b), "\n") {
+				var l childLine
+				if json.Unmarshal([]byte(line), &l) != nil {
+					continue
+				}
+				for _, i := range l.Start {
+					inflight[i] = true
+				}
+				if l.Idx != nil && l.Obs != nil {
+					res[*l.Idx] = *l.Obs
+					delete(inflight, *l.Idx)
+				}
+			}
+		}
+		if err == nil {
+			break
+		}
+		deaths++
+		words := stderr.String()
+		if len(words) > 1500 {
+			words = words[:1500]
+		}
+		if len(inflight) == 0 {
+			// died outside any batch (start-up): nothing to pin it on; do not loop for ever
+			for _, i := range idxs {
+				if _, ok := res[i]; !ok {
+					res[i] = obsData{Returned: false, Panic: "child process died before running the case: " + err.Error() + "\n" + words}
+				}
+			}
+			break
+		}
+		for i := range inflight {
+			res[i] = obsData{Returned: false, Panic: "the process serving this request died: " + err.Error() + "\n" + words}
+			if i+1 > from {
+				from = i + 1
+			}
+		}
+	}
+	for _, i := range idxs {
+		if _, ok := res[i]; !ok {
+			res[i] = obsData{Returned: false, Panic: "not run: child processes kept dying"}
+		}
+	}
+	return res, deaths
+}
+
 // ---- emission -------------------------------------------------------------------------
 
 const slack = 400 * time.Millisecond
 
-func emitCase(w *out.Writer, r *result) {
-	s := r.s
+// what was observed, as plain data (also what a child process hands back)
+type callData struct {
+	Be        int   `json:"be"`
+	Inv       int64 `json:"inv"`
+	HasDl     bool  `json:"has_dl"`
+	Dl        int64 `json:"dl"`
+	DoneAfter bool  `json:"done_after"`
+}
+
+type obsData struct {
+	Calls      []callData `json:"calls"`
+	Returned   bool       `json:"returned"`
+	Ret        int64      `json:"ret"`
+	Keys       []int      `json:"keys"`
+	Leaked     int        `json:"leaked"`
+	Released   bool       `json:"released"`
+	Tainted    bool       `json:"tainted"`
+	Panic      string     `json:"panic"`
+	BatchLevel bool       `json:"batch_level"`
+	Orphans    int64      `json:"orphans"`
+}
+
+func (r *result) data() obsData {
 	rec := r.rec
 	rec.mu.Lock()
 	calls := append([]*callRec(nil), rec.calls...)
@@ -785,19 +1239,28 @@ func emitCase(w *out.Writer, r *result) {
 		}
 		return calls[i].inv < calls[j].inv
 	})
+	o := obsData{Returned: r.returned, Ret: int64(r.ret), Keys: r.keys, Leaked: r.leaked, Released: rec.released.Load(),
+		Tainted: r.tainted, Panic: r.panicked, BatchLevel: r.batchLevel}
+	for _, c := range calls {
+		o.Calls = append(o.Calls, callData{Be: c.be, Inv: int64(c.inv), HasDl: c.hasDl, Dl: int64(c.dl), DoneAfter: c.doneAfter})
+	}
+	return o
+}
+
+func emitCase(w *out.Writer, s spec, r obsData) {
 	var cl []string
 	var cj []interface{}
-	for _, c := range calls {
+	for _, c := range r.Calls {
 		dl := "None"
 		var dj interface{}
-		if c.hasDl {
-			dl = emit.Some(emit.Z(int64(c.dl)))
-			dj = int64(c.dl)
+		if c.HasDl {
+			dl = emit.Some(emit.Z(c.Dl))
+			dj = c.Dl
 		}
-		cl = append(cl, fmt.Sprintf("{| k_be := %s; k_inv := %s; k_dl := %s; k_done_after := %s |}", emit.Nat(c.be), emit.Z(int64(c.inv)), dl, emit.Bool(c.doneAfter)))
-		cj = append(cj, map[string]interface{}{"backend": c.be, "invoked_ns": int64(c.inv), "deadline_ns": dj, "done_after_return": c.doneAfter})
+		cl = append(cl, fmt.Sprintf("{| k_be := %s; k_inv := %s; k_dl := %s; k_done_after := %s |}", emit.Nat(c.Be), emit.Z(c.Inv), dl, emit.Bool(c.DoneAfter)))
+		cj = append(cj, map[string]interface{}{"backend": c.Be, "invoked_ns": c.Inv, "deadline_ns": dj, "done_after_return": c.DoneAfter})
 	}
-	keys := append([]int(nil), r.keys...)
+	keys := append([]int(nil), r.Keys...)
 	sort.Ints(keys)
 	var kl []int
 	for i, k := range keys {
@@ -806,10 +1269,10 @@ func emitCase(w *out.Writer, r *result) {
 		}
 	}
 	obs := fmt.Sprintf("{| o_calls := %s; o_returned := %s; o_ret := %s; o_keys := %s; o_leaked := %s; o_released := %s; o_tainted := %s |}",
-		emit.List(cl), emit.Bool(r.returned), emit.Z(int64(r.ret)), emit.NatList(kl), emit.Nat(r.leaked), emit.Bool(rec.released.Load()), emit.Bool(r.tainted))
+		emit.List(cl), emit.Bool(r.Returned), emit.Z(r.Ret), emit.NatList(kl), emit.Nat(r.Leaked), emit.Bool(r.Released), emit.Bool(r.Tainted))
 	term := emit.App("Case", s.coq(), emit.Z(int64(slack)), obs)
-	js := map[string]interface{}{"input": s.js(), "observed": map[string]interface{}{"calls": cj, "returned": r.returned, "returned_ns": int64(r.ret),
-		"keys": kl, "leaked": r.leaked, "released_by_watchdog": rec.released.Load(), "tainted": r.tainted, "panic": r.panicked, "leak_seen_with_whole_batch_only": r.batchLevel}, "slack_ns": int64(slack)}
+	js := map[string]interface{}{"input": s.js(), "observed": map[string]interface{}{"calls": cj, "returned": r.Returned, "returned_ns": r.Ret,
+		"keys": kl, "leaked": r.Leaked, "released_by_watchdog": r.Released, "tainted": r.Tainted, "panic": r.Panic, "leak_seen_with_whole_batch_only": r.BatchLevel}, "slack_ns": int64(slack)}
 	nontrivial := s.level != "LProxy" || s.parent != 0
 	for _, a := range s.backends {
 		for _, x := range a {
@@ -848,8 +1311,17 @@ func emitCase(w *out.Writer, r *result) {
 	} else {
 		w.Count("stubs:proxy")
 	}
-	if r.tainted {
+	if r.Tainted {
 		w.Count("tainted")
+	}
+	if s.seqID > 0 {
+		w.Count("reuse:sequence-step")
+	}
+	if s.concID > 0 {
+		w.Count("reuse:concurrent-request")
+	}
+	if s.dangerous() {
+		w.Count("run-in-child-process")
 	}
 	w.Add(term, js, "", s.canon(), nontrivial)
 }
@@ -912,22 +1384,7 @@ func singles(v []beh) [][]beh {
 	return r
 }
 
-// Sequential merge + concurrent_calls > 1 over real http proxies can crash the process in the
-// unrepaired tree (finding reported with this check: the last attempt of the concurrent stage
-// works on the caller's *Request, which sequentialRequestPart overwrites once the stage has
-// returned on the first complete answer -> nil URL in proxy/http.go).  A panic in a goroutine
-// started by lura cannot be recovered here, so that combination is driven with proxy stubs
-// unless --extra seq-conc-http asks for it (used to validate fixes/C04-*.diff).
-var allowSeqConcHTTP bool
-
 func fix(s spec) spec {
-	if s.http && s.seq && s.multi() && !allowSeqConcHTTP {
-		for _, a := range s.backends {
-			if len(a) > 1 {
-				s.http = false
-			}
-		}
-	}
 	if s.http {
 		for _, a := range s.backends {
 			for j, x := range a {
@@ -992,6 +1449,52 @@ func generate(cfg out.Config, r *rng.R) []spec {
 		s.group = "corpus"
 		add(s)
 	}
+	// sequential merge + concurrent_calls 3 over real http proxies, hammered first (fixed: f5f9a56;
+	// runs in a child process, see spec.dangerous)
+	stress := 2 * time.Second
+	if cfg.Thorough() {
+		stress = 6 * time.Second
+	}
+	add(spec{level: "LProxy", T: T1, seq: true, http: true, stress: stress, group: "corpus-stress",
+		backends: [][]beh{{bAnswer, bAnswer, bAnswer}, {bAnswer, bAnswer, bAnswer}}})
+
+	// 1b. instance reuse, the telling orders: ONE pipeline / handler instance serves the requests
+	// of a sequence one after the other (a context, timer or cancel function created once per
+	// endpoint instead of once per request shows at the second request)
+	seqs, concs := 0, 0
+	addSeq := func(group string, base spec, steps ...[][]beh) {
+		seqs++
+		for k, bs := range steps {
+			st := base
+			st.backends = bs
+			st.seqID, st.step, st.group = seqs, k, group
+			if k%3 != 2 {
+				st.parent = 0 // the base's parent deadline only on every third request
+			}
+			add(st)
+		}
+	}
+	A, H, F, L, I := bAnswer, bHang, bFail, bLate, bIncomplete
+	addSeq("reuse-seq-corpus", spec{level: "LProxy", T: T1, parent: T1 / 2},
+		[][]beh{{A}, {A}}, [][]beh{{A}, {H}}, [][]beh{{H}, {H}}, [][]beh{{A}, {A}}, [][]beh{{F}, {A}}, [][]beh{{A}, {A}})
+	addSeq("reuse-seq-corpus", spec{level: "LProxy", T: T1, parent: T1 / 2},
+		[][]beh{{A, A}}, [][]beh{{A, H}}, [][]beh{{H, H}}, [][]beh{{A, A}}, [][]beh{{F, F}}, [][]beh{{A, I}})
+	addSeq("reuse-seq-corpus", spec{level: "LProxy", T: T1, seq: true, parent: T1 + time.Second},
+		[][]beh{{F}, {A}}, [][]beh{{A}, {A}}, [][]beh{{A}, {H}}, [][]beh{{A}, {A}})
+	addSeq("reuse-seq-corpus", spec{level: "LGin", T: T1},
+		[][]beh{{A}}, [][]beh{{H}}, [][]beh{{A}}, [][]beh{{F}}, [][]beh{{A}})
+	addSeq("reuse-seq-corpus", spec{level: "LMux", T: T1, parent: T1 / 2},
+		[][]beh{{A}}, [][]beh{{H}}, [][]beh{{A}}, [][]beh{{F}}, [][]beh{{A}})
+	addSeq("reuse-seq-corpus", spec{level: "LGin", T: T1},
+		[][]beh{{A}, {A}}, [][]beh{{H}, {A}}, [][]beh{{A}, {A}}, [][]beh{{L}, {F}}, [][]beh{{A}, {A}})
+	addSeq("reuse-seq-corpus", spec{level: "LMux", T: T1, seq: true, parent: T1 / 2},
+		[][]beh{{A, H}, {A}}, [][]beh{{H, H}, {A}}, [][]beh{{A, A}, {A}}, [][]beh{{A, A}, {H}}, [][]beh{{A, A}, {A}})
+	addSeq("reuse-seq-corpus", spec{level: "LGin", T: T1, http: true, noop: true},
+		[][]beh{{A}}, [][]beh{{A}}, [][]beh{{H}}, [][]beh{{A}})
+	addSeq("reuse-seq-corpus", spec{level: "LProxy", T: T1, http: true, parent: T1 / 2},
+		[][]beh{{A}, {A}}, [][]beh{{A}, {L}}, [][]beh{{A}, {A}}, [][]beh{{F}, {H}}, [][]beh{{A}, {A}})
+	addSeq("reuse-seq-corpus", spec{level: "LMux", T: T1},
+		[][]beh{{A, A}, {A, A}}, [][]beh{{A, H}, {F, F}}, [][]beh{{A, A}, {A, A}}, [][]beh{{H, H}, {A, L}}, [][]beh{{A, A}, {A, A}})
 
 	// 2. exhaustive small scope, proxy level: every vector of the six behaviours over n
 	// backends (parallel and sequential), every multiset over the attempts of one backend
@@ -1073,15 +1576,90 @@ func generate(cfg out.Config, r *rng.R) []spec {
 		}
 		add(s)
 	}
+	// 4. instance reuse, random sequences: one random shape, 4 requests with random behaviours,
+	// the last one healthy (whatever came before, it must be served in full)
+	nseq := 30
+	if cfg.Thorough() {
+		nseq = 300
+	}
+	imm := []beh{bAnswer, bAnswer, bIncomplete, bFail, bNil}
+	wt := []beh{bHang, bLate, bHang}
+	for k := 0; k < nseq; k++ {
+		base := spec{level: levels[r.Intn(3)], T: T1}
+		n := 1 + r.Intn(3)
+		base.seq = n > 1 && r.Chance(2, 5)
+		base.http = r.Chance(1, 5)
+		base.noop = base.http && r.Chance(1, 2)
+		ccs := make([]int, n)
+		for i := range ccs {
+			ccs[i] = 1
+			if r.Chance(2, 5) {
+				ccs[i] = 2 + r.Intn(2)
+			}
+		}
+		base.backends = make([][]beh, n)
+		for i := range ccs {
+			base.backends[i] = make([]beh, ccs[i])
+		}
+		if base.dangerous() {
+			base.http, base.noop = false, false
+		}
+		base.parent = []time.Duration{T1 / 2, T1 + time.Second}[r.Intn(2)]
+		var steps [][][]beh
+		for st := 0; st < 4; st++ {
+			bs := make([][]beh, n)
+			for i := range bs {
+				bs[i] = make([]beh, ccs[i])
+				for j := range bs[i] {
+					switch {
+					case st == 3:
+						bs[i][j] = bAnswer
+					case r.Chance(1, 3):
+						bs[i][j] = wt[r.Intn(len(wt))]
+					default:
+						bs[i][j] = imm[r.Intn(len(imm))]
+					}
+				}
+			}
+			steps = append(steps, bs)
+		}
+		addSeq("reuse-seq-random", base, steps...)
+	}
+
+	// 5. instance reuse, concurrent: ONE instance hit by G goroutines released together, each
+	// sending its requests one after the other; a small set of distinct inputs per group
+	G, iters := 12, 3
+	if cfg.Thorough() {
+		G, iters = 16, 4
+	}
+	addConc := func(base spec, inputs ...[][]beh) {
+		concs++
+		for g := 0; g < G; g++ {
+			for it := 0; it < iters; it++ {
+				st := base
+				st.backends = inputs[(g+it)%len(inputs)]
+				st.concID, st.concG, st.group = concs, g, "reuse-concurrent"
+				add(st)
+			}
+		}
+	}
+	addConc(spec{level: "LProxy", T: T1}, [][]beh{{A}, {A}}, [][]beh{{A}, {H}}, [][]beh{{F}, {A}}, [][]beh{{H}, {H}})
+	addConc(spec{level: "LProxy", T: T1}, [][]beh{{A, A, A}}, [][]beh{{A, H, H}}, [][]beh{{H, H, H}}, [][]beh{{F, A, H}})
+	addConc(spec{level: "LGin", T: T1}, [][]beh{{A}, {A}}, [][]beh{{A}, {H}}, [][]beh{{F}, {A}}, [][]beh{{H}, {L}})
+	addConc(spec{level: "LMux", T: T1, seq: true}, [][]beh{{A}, {A, A}}, [][]beh{{A}, {A, H}}, [][]beh{{F}, {A, A}}, [][]beh{{A}, {H, H}})
+	if cfg.Thorough() {
+		addConc(spec{level: "LMux", T: T1, http: true, noop: true}, [][]beh{{A}}, [][]beh{{H}}, [][]beh{{F}})
+		addConc(spec{level: "LProxy", T: T1, http: true}, [][]beh{{A}, {A}}, [][]beh{{A}, {L}}, [][]beh{{H}, {A}})
+		addConc(spec{level: "LGin", T: T1}, [][]beh{{A, A}}, [][]beh{{A, H}}, [][]beh{{I, I}}, [][]beh{{H, H}})
+		addConc(spec{level: "LProxy", T: T1, seq: true}, [][]beh{{A}, {A}, {A}}, [][]beh{{A}, {H}, {A}}, [][]beh{{A}, {A}, {F}})
+	}
 	return specs
 }
 
 func main() {
 	cfg := out.ParseFlags("C04")
-	allowSeqConcHTTP = true // the crash of this shape was repaired (fix: every attempt works on its own copy)
 	gin.SetMode(gin.ReleaseMode)
 	r := rng.New(cfg.Seed)
-	w := out.NewWriter(cfg, "Verif.Corr.C04", 400)
 	specs := generate(cfg, r)
 	rn := &runner{ignore: map[string]bool{}, serialLeft: 96, rerunLeft: 400, rerunBudget: 15 * time.Second}
 	if cfg.Thorough() {
@@ -1091,26 +1669,100 @@ func main() {
 	for _, id := range luraGoroutines(nil) {
 		rn.ignore[id] = true // whatever lura's package initialisers started
 	}
+	if strings.HasPrefix(cfg.Extra, "child:") {
+		from, _ := strconv.Atoi(strings.TrimPrefix(cfg.Extra, "child:"))
+		childMain(cfg, specs, from, rn)
+		return
+	}
+	w := out.NewWriter(cfg, "Verif.Corr.C04", 400)
 	t0 := time.Now()
-	if cfg.Only >= 0 {
-		for i, s := range specs {
-			if i == cfg.Only {
-				rs := rn.runAll([]spec{s}, 1)
-				emitCase(w, rs[0])
-			} else {
-				w.Add("", nil, "", s.canon(), false)
+
+	// which cases to run: all, or (replay) the one asked for together with what precedes it
+	// in its reuse sequence / its whole concurrent group
+	wanted := func(i int) bool { return true }
+	if cfg.Only >= 0 && cfg.Only < len(specs) {
+		o := specs[cfg.Only]
+		wanted = func(i int) bool {
+			s := specs[i]
+			switch {
+			case o.seqID > 0:
+				return s.seqID == o.seqID && s.step <= o.step
+			case o.concID > 0:
+				return s.concID == o.concID
 			}
+			return i == cfg.Only
 		}
-	} else {
+	}
+	var plain, child, seqs []int
+	concs := map[int][]int{}
+	var concOrder []int
+	for i, s := range specs {
+		if !wanted(i) {
+			continue
+		}
+		switch {
+		case s.dangerous():
+			child = append(child, i)
+		case s.seqID > 0:
+			seqs = append(seqs, i)
+		case s.concID > 0:
+			if _, ok := concs[s.concID]; !ok {
+				concOrder = append(concOrder, s.concID)
+			}
+			concs[s.concID] = append(concs[s.concID], i)
+		default:
+			plain = append(plain, i)
+		}
+	}
+	obs := map[int]obsData{}
+	deaths := 0
+	if len(child) > 0 {
+		var res map[int]obsData
+		res, deaths = runInChildren(cfg, child)
+		for i, o := range res {
+			obs[i] = o
+		}
+	}
+	tChild := time.Since(t0)
+	if len(seqs) > 0 {
+		for i, r := range rn.runSequences(specs, seqs) {
+			obs[i] = r.data()
+		}
+	}
+	for _, id := range concOrder {
+		for i, r := range rn.runConcurrent(specs, concs[id]) {
+			obs[i] = r.data()
+		}
+	}
+	tReuse := time.Since(t0) - tChild
+	if len(plain) > 0 {
 		batch := 48
 		if cfg.Thorough() {
 			batch = 96
 		}
-		for _, res := range rn.runAll(specs, batch) {
-			emitCase(w, res)
+		sub := make([]spec, len(plain))
+		for k, i := range plain {
+			sub[k] = specs[i]
+		}
+		for k, r := range rn.runAll(sub, batch) {
+			obs[plain[k]] = r.data()
+		}
+	}
+	for i, s := range specs {
+		if o, ok := obs[i]; ok {
+			emitCase(w, s, o)
+		} else {
+			w.Add("", nil, "", s.canon(), false)
 		}
 	}
 	w.Meta["run_wall_s"] = time.Since(t0).Seconds()
+	w.Meta["child_process_wall_s"] = tChild.Seconds()
+	w.Meta["instance_reuse_wall_s"] = tReuse.Seconds()
+	w.Meta["cases_run_in_child_process"] = len(child)
+	w.Meta["child_processes_that_died"] = deaths
+	w.Meta["instance_reuse_sequence_steps"] = len(seqs)
+	w.Meta["instance_reuse_concurrent_groups"] = len(concOrder)
+	w.Meta["stub_calls_without_a_known_request"] = rn.orphans
 	w.Meta["batches_with_leftover_goroutines"] = rn.batchLeaks
 	w.Meta["leaks_pinned_to_a_case"] = rn.attributed
 	w.Meta["batches_with_leak_not_pinned_down"] = rn.unattributed
@@ -1118,5 +1770,5 @@ func main() {
 	w.Meta["cases_still_tainted"] = rn.taintedLeft
 	w.Meta["batches_with_scheduling_stall"] = rn.stalledBatches
 	w.Meta["wall_time_slack_ns"] = int64(slack)
-	w.Close("corpus (23 shapes) + exhaustive at proxy level: all 6^n behaviour vectors for n=2..3 backends (thorough: ..4) in parallel and in sequential mode, all 7 behaviours for a single backend at the three levels, all multisets of 7 behaviours over 2 and 3 concurrent attempts, all 6^2 vectors behind gin and mux and with an earlier/later deadline of the context handed in + structured random (1..4 backends, concurrent_calls 1..3, 3 levels, timeouts incl. odd nanosecond counts, proxy stubs or http-executor stubs incl. no-op); nontrivial = anything but all-Answer at proxy level without parent deadline", true)
+	w.Close("corpus (23 shapes + a stressed sequential/concurrent_calls 3 shape over http proxies, run in a child process whose death is an observation) + instance reuse (one pipeline/handler instance serving 4-6 consecutive different requests: 10 hand-picked orders and random ones; one instance hit by 12 goroutines x 3 requests over 4 distinct inputs, 4 shapes) + exhaustive at proxy level: all 6^n behaviour vectors for n=2..3 backends (thorough: ..4) in parallel and in sequential mode, all 7 behaviours for a single backend at the three levels, all multisets of 7 behaviours over 2 and 3 concurrent attempts, all 6^2 vectors behind gin and mux and with an earlier/later deadline of the context handed in + structured random (1..4 backends, concurrent_calls 1..3, 3 levels, timeouts incl. odd nanosecond counts, proxy stubs or http-executor stubs incl. no-op); nontrivial = anything but all-Answer at proxy level without parent deadline", true)
 }
